@@ -38,6 +38,11 @@ def run(ctx):
         if r['status'] != 'agree':
             res['counterexamples'].append({'key': 'c01:transform:' + r['program'].replace('\n', ' '), 'what': 'transform() and Model/CoreRun.transform differ: %s' % r.get('what'),
                                            'input': {'transform_rules': p, 'program': r['program']}})
+    # atoms with arguments (primes, classical negation and the time stamp around argument lists): the programs with their atoms renamed against the programs themselves
+    import meta
+    rcex, rnon = meta.renaming_cex(ctx, [p for _, p in progs][:40 if ctx.quick else 200], H, 'C01')
+    res['counterexamples'] += rcex
+    res['coverage']['renamed_programs_with_answer_sets'] = rnon
     res['coverage']['evaluations'] += len(srecs)
     res['coverage']['transform_structure_status'] = sstat
     res['coverage']['rule'] += '; structure: the rewritten statements of transformers.transform for the %d programs inside the fragment of Model/CoreRun.v compared rule by rule (part, head, signed body literals with time terms, trailer) with the extracted model' % len(srecs)
@@ -81,6 +86,9 @@ def summarize(ctx, progs, recs, H, maxbits, prop, nontrivial_extra=None):
 
 def replay(ctx, payload):
     inp = payload['input']
+    if 'renaming' in inp:
+        import meta
+        return meta.renaming_replay(ctx, payload)
     if 'transform_rules' in inp:
         return trstruct.compare(ctx, [inp['transform_rules']])[0]['status'] != 'agree'
     r = s4.compare(ctx, [inp['rules']], inp.get('H', 3), inp.get('maxbits', 12), default_config=bool(inp.get('default_config')))[0]
